@@ -261,6 +261,28 @@ def construct(spec, backend):
     return cls(data, options=o)
 
 
+def construct_sharing(spec, backend, other_spec):
+    """construct `spec`'s timeline from an options dict that the caller then EDITS IN PLACE (to `other_spec`'s options) and uses again for a
+    second timeline — one dict object, two constructor calls, changed in between.  Returns the first timeline."""
+    from labella.timeline import TimelineSVG, TimelineTex
+    cls = TimelineSVG if backend == "svg" else TimelineTex
+    data, o = build_args(spec)
+    if not isinstance(o, dict):
+        return construct(spec, backend)
+    tl = cls(data, options=o)
+    data2, o2 = build_args(other_spec)
+    if isinstance(o2, dict):
+        for k in list(o):
+            if k not in o2:
+                del o[k]
+        o.update(o2)
+        try:
+            cls(data2, options=o)
+        except Exception:
+            pass
+    return tl
+
+
 def export(tl):
     from labella.timeline import TimelineTex
     if isinstance(tl, TimelineTex):
